@@ -125,6 +125,15 @@ func wlWorkloads() map[string]*wlWorkload {
 				}
 				return okResp()
 			}},
+			// requests that must be refused, whether or not a restart came before them (what decides them - branch names in
+			// use, instance names, commit flags - is partly rebuilt at start-up rather than stored): an accepted one shows
+			// up as a new node or instance in the later snapshots
+			branch(B, D, "side2"), // the head of branch "side" is no longer a leaf
+			{"reuse-branch-name", true, post("node/"+A+"/branch", fmt.Sprintf(`{"branch":"side","note":"again","uuid":%q}`, wlUUID(6)))},
+			{"second-master-child", true, post("node/"+R+"/newversion", fmt.Sprintf(`{"note":"again","uuid":%q}`, wlUUID(7)))},
+			{"duplicate-instance", true, post("repo/"+R+"/instance", `{"typename":"keyvalue","dataname":"kv"}`)},
+			{"newversion-on-open-node", true, post("node/"+D+"/newversion", fmt.Sprintf(`{"note":"open","uuid":%q}`, wlUUID(8)))},
+			{"put-on-committed", true, post("node/"+A+"/kv/key/k9", "late")},
 		}}
 
 	// W2: key-value writes
@@ -176,6 +185,10 @@ func wlWorkloads() map[string]*wlWorkload {
 				v.fill([3]int{0, 0, 0}, [3]int{8, 8, 8}, 300)
 				return lmPostRaw(A, "lm", v, true)
 			}},
+			// bulk mapping ingestion (POST mappings): a non-identity pair, then an identity pair that releases a supervoxel
+			// mapped earlier (the live cache is updated directly, a restarted server rebuilds it from the log)
+			{"mappings-ingest", false, post("node/"+A+"/lm/mappings", string(c20MappingOps([][]uint64{{900, 1, 3}}).layer().Data))},
+			{"mappings-identity", false, post("node/"+A+"/lm/mappings", string(c20MappingOps([][]uint64{{901, 3, 3}, {901, 4, 4}}).layer().Data))},
 		}}
 
 	// W4: annotations
